@@ -92,17 +92,17 @@ def _subs_from(conds):
                 elif r.is_Symbol:
                     subs[r] = l
                 else:
-                    sol = None
-                    for s in sorted((l - r).free_symbols, key=str):
-                        try:
-                            ss = sp.solve(l - r, s, dict=True)
-                        except Exception:
-                            ss = []
-                        if len(ss) == 1:
-                            sol = (s, ss[0][s])
-                            break
-                    if sol:
-                        subs[sol[0]] = sol[1]
+                    # linear solve only (cheap); a condition that cannot be used stays unused, which is sound:
+                    # the arm is then checked as an unconditional identity
+                    try:
+                        with time_limit(1):
+                            sym_, sol_ = sp.solve_linear(l - r)
+                        if sym_.is_Symbol and not sol_.has(sym_):
+                            subs[sym_] = sol_
+                        elif sym_ == 0 and sol_ != 0 and (l - r).is_positive:
+                            infeasible = True
+                    except Exception:
+                        pass
     return subs, infeasible
 
 
